@@ -20,7 +20,7 @@ func newEnc(w *World, fn *ssa.Function, fc *FuncContract, pass int, prev *Enc) *
 		edgeCond: map[[2]int]Term{}, writes: map[int]map[string]bool{}, callOrd: map[string]int{}, kindOrd: map[string]int{},
 		debugVars: map[string][]ssa.Value{}, closures: map[ssa.Value]*ssa.MakeClosure{}, ghostLoc: map[string]Val{},
 		paramVals: map[string]Val{}, used: map[string]bool{}, typeIDs: w.typeIDs,
-		atHit: map[int]bool{}, rangeOf: map[*ssa.Range]ssa.Value{}, callLog: map[string]SV{}, replayTerm: map[string]SV{}, labels: map[string]*State{},
+		atHit: map[int]bool{}, rangeOf: map[*ssa.Range]ssa.Value{}, callLog: map[string]SV{}, replayTerm: map[string]SV{}, labels: map[string]*State{}, lastRelease: map[*LockDecl]*State{}, lastAcquire: map[*LockDecl]*State{},
 	}
 	if fc != nil && fc.Mode == "bv" {
 		e.bv = true
